@@ -461,4 +461,34 @@ CHECKS = {
                "Pearson algebra over Qc) + vm_compute correspondence + "
                "reference-statistic differential check",
  },
+ "C15": {
+  "text": "Theorems: for ANY rank vector that is a permutation of 0..n-1 the "
+          "AAFT / refined-AAFT 'true amplitudes' row is a permutation of the "
+          "data row; multiplying the memoised spectrum by unit phases keeps "
+          "every squared amplitude after any number of calls on one object; "
+          "the twin lists built by the kernel's search loop contain exactly "
+          "the states separated by more than min_dist with identical "
+          "recurrence rows and more than one neighbour, and twins come in "
+          "pairs; for every stream of random numbers in [0,1) and every "
+          "length a twin walk visits only original states and every step "
+          "goes to the successor of the current state or of one of its twins "
+          "(or restarts inside the series when that successor is past the "
+          "end). The four twin kernels and their callers are matched "
+          "statement by statement against the model on every run (the "
+          "translator fails closed). Hypotheses kept explicit: argsort of "
+          "argsort is a permutation (checked per instance), rfft / irfft "
+          "round trip (numerical, search layer). Correspondence inside Coq: "
+          "twin lists of Surrogates and RecurrencePlot, twin walks replayed "
+          "with the recorded stream of random numbers.",
+  "design_ref": "DESIGN.md section 5, C15",
+  "note": "trusted: translator pyx_twins.py (statement-level comparison "
+          "with the modelled kernels, fail-closed); Python's random module "
+          "is replaced by a recording stream inside the harness process; "
+          "numpy FFT; amplitude spectra compared at 1e-8",
+  "technique": "Coq proofs (permutation of rank remapping, modulus of "
+               "complex products by induction over calls, membership "
+               "characterisation of the twin search, invariants of the twin "
+               "walk by induction over steps for all oracle streams) + "
+               "vm_compute correspondence + exact multiset / spectrum search",
+ },
 }
